@@ -1243,10 +1243,225 @@ def run_task_invocations(ctx, case):
     ctx.sig([op, shared, [o["res"][0] for o in observed], sorted({k for o in observed for k in o["kinds"]})], nontrivial=reached > 0)
 
 
+# ---------------------------------------------------------------------------------------------
+# long outcome sequences: large budgets and retry-until-success are honoured for thousands of attempts
+# ---------------------------------------------------------------------------------------------
+def gen_long(ctx):
+    rng = ctx.rng
+    for i in range(ctx.budget):
+        n = rng.choice([1000, 1200, 1500, 2000, 3000]) + rng.randrange(0, 50)
+        pool = rng.choice([["dictFail"], ["connTimeout"], ["dictFail", "connTimeout", "connError", "api408", "sockTimeout"]])
+        outs = [[rng.choice(pool), rng.randrange(NVARIANTS)] for _ in range(n)]
+        mode = (i + ctx.shard) % 4
+        if mode == 0:
+            pw, tail = {"until": True, "wait": ["f", "0.01"]}, [["dictOk", 0]]
+        elif mode == 1:
+            pw, tail = {"retries": n + rng.choice([0, 1, 100]), "on_error": True, "wait": ["i", 0]}, [["dictOk", 1]]
+        elif mode == 2:
+            pw, tail = {"retries": n - 1 - rng.randrange(0, 3), "on_error": True}, [["dictOk", 2]]   # the budget ends inside the failures
+        else:
+            pw, tail = {"ctor": True, "wait": ["f", "0.5"]}, [["nonDict", 0]]
+        yield {"p": dict({"ctor": None, "until": None, "retries": None, "on_error": None, "on_timeout": None, "wait": None}, **pw), "outs": outs + tail}
+
+
+# ---------------------------------------------------------------------------------------------
+# several invocations in flight on ONE runner object (the clients of a worker share the registered runner)
+# ---------------------------------------------------------------------------------------------
+def gen_concurrent(ctx):
+    """2-3 overlapping invocations with different retry settings and different delegate scripts on one shared runner object
+    (a registered operation type through runner_for, or one Retry(delegate)), started at different virtual times"""
+    from esrally import track
+
+    ops = sorted(m.to_hyphenated_string() for m in track.OperationType)
+    rng = ctx.rng
+    waits = [None, ["f", "0.25"], ["i", 1], ["f", "0.4"], ["i", 2], ["f", "0.5"]]
+    for i in range(ctx.budget):
+        op = None if rng.random() < 0.3 else ops[(i * ctx.nshards + ctx.shard) % len(ops)]
+        invs = []
+        for k in range(rng.choice([2, 2, 3])):
+            n = rng.choice([1, 2, 3, 4, 5])
+            pw = gen_params(rng, n)
+            pw["ctor"] = None
+            pw["wait"] = rng.choice(waits)
+            if pw.get("retries") is not None and pw["retries"] < 0:
+                pw["retries"] = 0
+            if rng.random() < 0.2:
+                pw["until"] = True
+            outs = gen_script(rng, n)
+            if pw.get("until") and rng.random() < 0.8:
+                outs.append(["dictOk", 0])
+            invs.append({"p": pw, "outs": outs, "start": rng.choice(["0", "0", "1/10", "3/10", "3/5", "1"])})
+        yield {"op": op, "invs": invs}
+    if ctx.shard == 0:
+        # a long-budget call sleeping between attempts while a call with other settings starts and finishes
+        yield {"op": "refresh", "invs": [
+            {"p": {"retries": 3, "wait": ["i", 1]}, "outs": [["connTimeout", 0]] * 5, "start": "0"},
+            {"p": {}, "outs": [["dictOk", 0]], "start": "1/2"}]}
+        yield {"op": None, "invs": [
+            {"p": {"until": True, "wait": ["i", 1]}, "outs": [["dictFail", 0]] * 4 + [["dictOk", 0]], "start": "0"},
+            {"p": {"retries": 1, "wait": ["f", "0.25"]}, "outs": [["connError", 0], ["connError", 1], ["dictOk", 0]], "start": "1/2"}]}
+
+
+def run_concurrent(ctx, case):
+    import asyncio
+    import heapq
+    from esrally.driver import runner
+    from esrally import exceptions
+
+    op, invs = case["op"], case["invs"]
+    rows = _registered(ctx)
+    es_default = object()
+    if op is None:
+        row = {"wrapped": True, "until": False, "doc_retryable": True, "op": None}
+        holder = {}
+
+        async def shared_delegate(e, p):
+            return await holder["dispatch"](p)
+
+        target = runner.Retry(shared_delegate)
+        es = es_default
+        cls = None
+    else:
+        row = rows.get(op)
+        try:
+            target = runner.runner_for(op)
+        except exceptions.RallyError:
+            ctx.sig(["unregistered"], nontrivial=False)
+            return
+        es = {"default": es_default}
+        cls = type(runner.unwrap(target))
+    params = [wire_params(v["p"]) for v in invs]
+    objs = [[make_outcome(k, var, i) for i, (k, var) in enumerate(v["outs"])] for v in invs]
+    traces = [[] for _ in invs]
+    times = [[] for _ in invs]
+    counts = [0] * len(invs)
+    clock = {"t": Fraction(0), "seq": 0}
+    timers = []
+    task_inv = {}
+    loop = _loop()
+    orig_sleep = asyncio.sleep
+
+    async def dispatch(p):
+        j = next((j for j, q in enumerate(params) if q is p), None)
+        if j is None:
+            raise HarnessError("delegate called with a params object that belongs to no invocation")
+        i = counts[j]
+        counts[j] += 1
+        traces[j].append("c")
+        times[j].append(clock["t"])
+        if i >= len(objs[j]):
+            raise ScriptExhausted()
+        is_value, o = objs[j][i]
+        if is_value:
+            return o
+        raise o
+
+    async def patched(self, e, p):
+        return await dispatch(p)
+
+    async def fake_sleep(d, result=None):
+        j = task_inv.get(asyncio.current_task())
+        f = Fraction(d)
+        if j is not None and j >= 0:
+            traces[j].append(f"{f.numerator}/{f.denominator}")
+        fut = loop.create_future()
+        clock["seq"] += 1
+        heapq.heappush(timers, (clock["t"] + max(f, 0), clock["seq"], fut))
+        await fut
+        return result
+
+    results = [None] * len(invs)
+
+    async def one(j):
+        task_inv[asyncio.current_task()] = -1 - j      # the start delay is not part of the invocation
+        await fake_sleep(Fraction(invs[j]["start"]))
+        task_inv[asyncio.current_task()] = j
+        try:
+            results[j] = ("returned", await target(es, params[j]))
+        except ScriptExhausted:
+            results[j] = ("pending", None)
+        except Exception as ex:  # pylint: disable=broad-except
+            results[j] = ("raised", ex)
+
+    async def main():
+        tasks = [loop.create_task(one(j)) for j in range(len(invs))]
+        spins = 0
+        while True:
+            while sum(not t.done() for t in tasks) > len(timers):
+                await orig_sleep(0)
+                spins += 1
+                if spins > 200000:
+                    raise HarnessError("virtual-time scheduler does not reach quiescence")
+            if all(t.done() for t in tasks):
+                break
+            when, _, fut = heapq.heappop(timers)
+            clock["t"] = when
+            fut.set_result(None)
+        for t in tasks:
+            t.result()
+
+    if op is None:
+        holder["dispatch"] = dispatch
+    else:
+        orig_call = cls.__call__
+        cls.__call__ = patched
+    asyncio.sleep = fake_sleep
+    try:
+        loop.run_until_complete(main())
+    finally:
+        asyncio.sleep = orig_sleep
+        if op is not None:
+            cls.__call__ = orig_call
+    sig = []
+    for j, v in enumerate(invs):
+        kind, payload = results[j]
+        tr = traces[j]
+        if kind == "pending":
+            res, tr = ["pending"], tr[:-1]
+        else:
+            n = tr.count("c")
+            if kind == "returned" and n == 0 and payload is None:
+                res = ["fell"]
+            elif 1 <= n <= len(objs[j]) and objs[j][n - 1][1] is payload and objs[j][n - 1][0] == (kind == "returned"):
+                res = [kind, n - 1]
+            else:
+                res = [kind + "-foreign", type(payload).__name__, str(payload)[:80]]
+        a = model_args(dict(v["p"], ctor=False), v["outs"])
+        a["wrapped"], a["reg_until"] = row["wrapped"], row["until"]
+        m = ctx.model("retry", "registered", a)
+        if [m["r"]["res"], m["r"]["trace"]] != [res, tr]:
+            ctx.diff(f"invocation {j + 1} of {len(invs)} in flight on one runner object ({op or 'Retry(delegate)'})",
+                     {"res": m["r"]["res"], "trace": m["r"]["trace"]}, {"res": res, "trace": tr, "attempt times": [str(t) for t in times[j]]})
+        if row["doc_retryable"]:
+            exp = oracle(dict(v["p"], ctor=None), v["outs"], ctor_default=(op == "get-async-search"))
+            ok = exp is None or [exp[0], exp[1]] == [res, tr]
+            if ok and exp is not None:
+                # attempts happen when the invocation's own waits say so (virtual clock)
+                t, want = Fraction(v["start"]), []
+                for ev in exp[1]:
+                    if ev == "c":
+                        want.append(t)
+                    else:
+                        t += max(Fraction(ev), 0)
+                if want != times[j][: len(want)]:
+                    ok = False
+            if not ok:
+                ctx.fail("concurrent-invocations-interfere",
+                         f"invocation {j + 1} of {len(invs)} overlapping invocations on one runner object ({op or 'Retry(delegate)'}) does not retry as ITS OWN parameters say",
+                         {"res": exp[0], "trace": exp[1]}, {"res": res, "trace": tr, "attempt times": [str(t) for t in times[j]], "own parameters": v["p"],
+                                                             "other invocations": [w["p"] for k, w in enumerate(invs) if k != j]})
+        sig.append([res[0], len(tr)])
+    ctx.count("invocations-in-flight:%d" % len(invs))
+    ctx.count("shared-object:" + ("registered" if op else "Retry(delegate)"))
+    ctx.sig([op is None, sig], nontrivial=True)
+
+
 STREAMS = [
     Stream("random_scripts", gen_random, run_retry, quick=24000, thorough=1500000, shards=16),
     Stream("all_short_scripts", gen_exhaustive, run_retry, quick=24442, thorough=1, shards=16, exhaustive_thorough=True),
     Stream("registered_ops", gen_registered, run_registered, quick=4000, thorough=60000, shards=8),
     Stream("task_invocations", gen_task_invocations, run_task_invocations, quick=4000, thorough=60000, shards=16),
     Stream("cluster_answers", gen_cluster_answers, run_task_invocations, quick=12000, thorough=120000, shards=16),
+    Stream("long_scripts", gen_long, run_retry, quick=32, thorough=320, shards=16),
+    Stream("concurrent_invocations", gen_concurrent, run_concurrent, quick=4000, thorough=60000, shards=16),
 ]
